@@ -108,6 +108,12 @@ def fit(name, obs, emb, init, iterations, opts=None, num_classes=None, seed=None
         start = dict(num_classes=int(num_classes))
     else:
         start = dict(initialization=init)
+    if kw.get('fixed_covariance') is not None:
+        # symbolic option (a scale): the same scale * identity for every class, in the shape of the Gaussian class
+        from .em_util import fixed_covariance
+        K = int(num_classes) if num_classes is not None else np.shape(init)[-2]
+        kw['fixed_covariance'] = fixed_covariance(kw['fixed_covariance'], kw.get('covariance_type', 'full'),
+                                                  emb.shape[:-2] if name == 'gmm' else (), K, emb.shape[-1])
     tr = trainer(name)
     f = tr.fit_predict if predict else tr.fit
     if name in INTEGRATION:
@@ -384,6 +390,8 @@ def gen_options(rng, name, ndim, F=None, allow_aligner=True, K=2):
         o['affiliation_eps'] = float(rng.choice([0.0, 1e-10, 1e-3]))
     if name in ('gmm', 'gcacgmm'):
         o['covariance_type'] = str(rng.choice(['full', 'diagonal', 'spherical']))
+        if rng.random() < 0.15:
+            o['fixed_covariance'] = float(rng.choice([0.5, 1.0, 2.0]))
     if name in INTEGRATION:
         o['spatial_weight'] = float(rng.choice([1.0, 0.5, 2.0, 0.0]))
         o['spectral_weight'] = float(rng.choice([1.0, 0.3, 1.7]))
